@@ -131,8 +131,8 @@ PROPS = {
     },
     "C11": {
         "file": "C11.v",
-        "streams": [S("conc", 40, 600, focus="C11", timeout=2400, race=True), S("htl", 150, 3000)],
-        "claim": "Table-level theorems on the atomic-step LTS: a lookup's key and value are fields of one item object created by one write (items are never mutated), the structural invariant holds at every instant including between the two stores of an operation, replaced arrays are frozen, lookups terminate within n*(w+1) loads. Tied to /repo by free-running stress with multi-word checksummed values (torn values, TTL/value pairing), panics recovered as violations, the internal-structure checker at quiescence, one-writer/many-reader races on the real table; the thorough tier runs the same under the Go race detector.",
+        "streams": [S("conc", 40, 600, focus="C11", timeout=2400, race=True), S("htl", 150, 3000), S("rb", 100, 2000)],
+        "claim": "Table-level theorems on the atomic-step LTS: a lookup's key and value are fields of one item object created by one write (items are never mutated), the structural invariant holds at every instant including between the two stores of an operation, replaced arrays are frozen, lookups terminate within n*(w+1) loads. Tied to /repo by free-running stress with multi-word checksummed values (torn values, TTL/value pairing), panics recovered as violations, the internal-structure checker at quiescence, one-writer/many-reader races on the real table; the thorough tier runs the same under the Go race detector. The wait-free read-sample ring is proved (ReadBuffer.v: indices in range, nothing fabricated, exact accounting, for every interleaving of producers and the consumer) and tied to the real stripe by the rb stream (whole samples and drains incl. lapped windows: back-pressure flag, cursors and the exact replayed fingerprints compared). Structures under the shard RWMutex: MutexAtomicity (readers see only states satisfying the invariants of the write-locked bodies).",
         "note": "Trusted: as C02. Data-race freedom in the Go memory-model sense is not expressible in the model: the race detector in the thorough tier is a search tool, so that clause is partial.",
         "assumptions": ["sync/atomic operations are single sequentially consistent steps"],
     },
